@@ -118,12 +118,12 @@ func main() {
 	if workers < 2 {
 		workers = 2
 	}
-	nPods := evid.Tiered(fl.Tier, 20000, 500000)
+	nPods := evid.Tiered(fl.Tier, 120000, 500000)
 	nBatches := (nPods + batchSize - 1) / batchSize
 	if nBatches < 10 {
 		nBatches = 10 // every input class has at least one batch
 	}
-	nCases := evid.Tiered(fl.Tier, 50, 2000)
+	nCases := evid.Tiered(fl.Tier, 400, 2000)
 
 	perBatch := batchSize
 	if nPods < nBatches*batchSize {
